@@ -163,18 +163,33 @@ def extract(sheet):
     return [extract_rule(r) for r in sheet.cssRules]
 
 
-def model_chars(m):
-    """every character held by the strings of an extracted model"""
-    if isinstance(m, str):
-        return set(m)
-    if isinstance(m, dict):
-        m = list(m.values())
-    if isinstance(m, (list, tuple)):
-        out = set()
-        for x in m:
-            out |= model_chars(x)
-        return out
-    return set()
+def model_counter(m):
+    """how often each character occurs in the extracted model, every piece of the sheet counted once (the
+    serializer-made 'text' is only used where a rule has no attributes of its own; 'sel' and the normalised
+    property name repeat the selector / literal name)"""
+    import collections
+    cnt = collections.Counter()
+
+    def add(x):
+        if isinstance(x, str):
+            cnt.update(x)
+        elif isinstance(x, (list, tuple)):
+            for y in x:
+                add(y)
+
+    for r in m:
+        keys = [k for k in r if k not in ("type", "sel", "rules")]
+        if any(k != "text" for k in keys):
+            keys = [k for k in keys if k != "text"]
+        for k in keys:
+            if k == "style":
+                for p_ in r[k]:
+                    add(p_[1:] if len(p_) == 4 else p_)
+            else:
+                add(r[k])
+        if "rules" in r:
+            cnt.update(model_counter(r["rules"]))
+    return cnt
 
 
 def unresolved_atkeyword_only(m1, m2):
@@ -266,8 +281,9 @@ def oracle(case):
         if extract(cp.parseString(text0)) != m0:
             # ... but only when the PARSER already did not keep a planted character (then there is nothing for the
             # encoding to preserve); a character the model holds and the serializer loses is a failure here too
-            kept = model_chars(m0)
-            if any((ord(ch) >= 128 or (ord(ch) < 32 and ch not in "\t\n\r\f")) and ch not in kept for ch in src):
+            kept = model_counter(m0)
+            if any((ord(ch) >= 128 or (ord(ch) < 32 and ch not in "\t\n\r\f")) and kept[ch] < src.count(ch)
+                   for ch in set(src)):
                 return ("SKIP", "not text-stable")
         if unresolved_atkeyword_only(m1[1:], m2[1:]):
             return ("re-parsed object model differs: at-keyword of an unknown rule comes back with its escape "
@@ -1019,7 +1035,8 @@ def run(ctx):
     ctx.finish({
         "evaluations": len(cases) + n_model + len(hists),
         "distinct_nontrivial": len(nontrivial),
-        "rule": "end-to-end: %d position templates x %d planted characters x the follow strings of each position "
+        "rule": "end-to-end: %d position templates x (%d planted characters x the follow strings of each position + the %d "
+                "characters Python treats as white space / line breaks x 2 follows) "
                 "(%d sheets, exhaustive part) + random sheets with 1-4 planted positions, each x %d codecs; "
                 "non-trivial = (sheet, codec) pairs in which at least one planted character is not encodable, "
                 "i.e. the escape path runs; model correspondence: handler text per code point, "
